@@ -42,6 +42,14 @@ Theorem C19_cancellable_side_conditions : forall (p : params) (sched : list nat)
 Proof. exact completion_side_conditions. Qed.
 Print Assumptions C19_cancellable_side_conditions.
 
+(* a by-product: with a nested operation that obeys the contract (natural completion and stop()
+   arbitrate on their own word first, like every client in the library) the `completed` test of
+   try_complete is never contended: no call returns false *)
+Theorem C19_cancellable_try_complete_never_loses : forall (p : params) (sched : list nat),
+  lost (fst (run (step p) sched (init p, []))) = 0.
+Proof. exact try_complete_never_loses. Qed.
+Print Assumptions C19_cancellable_try_complete_never_loses.
+
 (* quiet_after_completion.  FULL STATEMENT (wanted for fx = false, the tree):
      forall p sched, late (fst (run (step p) sched (init p, []))) = 0.
    It is FALSE for the code as it is when the completion is handed to another thread (next
